@@ -422,9 +422,18 @@ def psqrt(p):
 
 
 def pexp(p):
+    """exp of a normal form splits over its monomials: exp(sum_m c_m m) = prod_m exp(m / b_m)^(a_m) with c_m = a_m / b_m in
+    lowest terms -- one positive generator per (monomial, denominator), integer (possibly negative) powers.  Canonical for
+    integer coefficients, so exp(h_k - h_max) / sum_j exp(h_j - h_max) and exp(h_k) / sum_j exp(h_j) have the same normal
+    form; exp(m/2)^2 and exp(m) stay distinct generators (incomplete, never unsound)."""
     if not p:
         return {(): Q(1)}
-    return pgen(gen("exp", pkey(p), data=p, sign="+"))
+    out = {(): Q(1)}
+    for m, c in sorted(p.items()):
+        c = Q(c)
+        base = {m: Q(1, c.denominator)}
+        out = pmul(out, pgen(gen("exp", pkey(base), data=base, sign="+"), int(c.numerator)))
+    return out
 
 
 def nf(n):
